@@ -48,6 +48,23 @@ Parts
        target is judged with the clauses for that target and nothing may reach
        any other stream (prefix ``target-history/`` when a console created for
        that target is right). sys.stdout / sys.stderr are restored in finally.
+  TH   threads (E3, vf/sched.py): two real threads, each printing its own styled
+       segments on its OWN console, 7 harnesses (attributes vs colours, truecolor
+       styles on a 256 and a standard console, the same Style object on two
+       systems / on the same system, NO_COLOR+record vs colour, Text with style
+       definitions through the Style.parse cache).  Fresh Style objects and
+       cleared lru caches per execution.  Scheduling points: every executed line
+       of rich.style, rich.color, rich.segment ("style"), for three harnesses
+       also every line of rich.console and the bytecodes of _check_buffer /
+       _render_buffer ("console").  All schedules with <=1 preemption (quick),
+       <=2 for the Segment harnesses (thorough).  Each console's stream is judged
+       like a sequential write, and so is a later single-threaded write of the
+       same Style objects (keys threads/own-objects/..., threads/shared-objects/...,
+       threads/memoised/...).  Every shard runs in a forked child.
+
+Every family runs on the console-option product colour system x no_color x
+terminal x legacy_windows x record (record=True only adds a copy of the buffer,
+the stream must not change).
 
 A failing case that has a history is re-executed with fresh objects; when the
 fresh write is right the finding key gets the prefix ``history/`` (the defect is
@@ -55,10 +72,8 @@ in what the objects remember, not in what they emit).
 
 Measured (machine shared with other jobs, load average 80-90 on 16 cores, so CPU
 time is the meaningful number):
-  quick    962,732 judged writes (D 73,728; F 6,216), ~6.0 k outcome signatures,
-           ~200-220 CPU-s (46-73 s wall with 6 workers on the shared machine)
-  thorough 7,716,636 judged writes (D 1,886,592; F 37,320); before D and F were added
-           5,792,724 took ~1540 CPU-s; D and F add ~580 CPU-s (~2.5 min on 16 idle cores in all)
+  quick    1,808,854 sequential cases + 3,988 schedules (x4 judged writes), ~500 CPU-s
+  thorough 9,720,598 sequential cases (~2700 CPU-s) + ~110 k schedules (~1200 CPU-s)
 """
 import io
 import itertools
@@ -69,7 +84,7 @@ from ..term import ESC, decode, tokenize
 
 ID = "C03"
 LEVEL = "exploration"
-ENGINE = "E1"
+ENGINE = "E1+E3"
 CAP_S = {"quick": 600, "thorough": 2400}
 
 SYSTEMS = [None, "standard", "256", "truecolor", "windows"]
@@ -1034,8 +1049,11 @@ def _th_plan(tier):
         if hid in ("attrs-vs-colour", "same-style-two-systems", "no-color-record-vs-colour"):
             out.append((hid, "console", 1, 1))
     if tier != "quick":
+        # bound 2: 13-30 k schedules per Segment harness (150-400 CPU-s); the Text harnesses have ~520 points
+        # per execution (~100 k schedules at bound 2, ~1500 CPU-s each) and stay at bound 1
         for hid in TH_ORDER:
-            out.append((hid, "style", 2, 4))
+            if TH_HARNESS[hid][5] == "seg":
+                out.append((hid, "style", 2, 8))
     return out
 
 
@@ -1295,14 +1313,25 @@ def describe(tier, seed, res):
                 "from the one base object in one buffer x {Segments, Text spans} x 12 configurations. "
                 "F: consoles following sys.stdout / sys.stderr / owning a file x created on tty-like|plain x system "
                 "{None, truecolor} x all histories of <=%d steps over {print, control+bell, swap std stream to tty-like, to plain, "
-                "console.file = tty-like, = plain} ending in a write; every step judged on the current target. Non-trivial = the oracle had to see a "
+                "console.file = tty-like, = plain} ending in a write; every step judged on the current target. "
+                "Every family runs on the console-option product colour system x no_color x terminal x legacy_windows x "
+                "record (S 180 configurations, Q/T 80, SH second writer 6 flag settings incl. record and record+no_color, "
+                "D and F x record; length-3 sequences and D triples without record). "
+                "TH (E3, vf/sched.py): two real threads each printing its own styled segments on its OWN console; harnesses %s; "
+                "fresh Style objects and cleared lru caches per execution; scheduling points = executed lines of rich.style, "
+                "rich.color, rich.segment, for 3 harnesses also the lines of rich.console and the bytecodes of "
+                "_check_buffer/_render_buffer; every schedule with <=%s preemptions; each stream and a later "
+                "single-threaded write of the same Style objects judged by the sequential oracle; a counterexample is "
+                "re-executed and must reproduce before it is reported; %d schedules run. Non-trivial = the oracle had to see a "
                 "styled character or a control segment, or a negative clause met a non-null style; distinct = distinct "
                 "(mode, configuration, history systems, derivation, expected attrs?/fg kind/bg kind/link?, controls?, long?) tuples."
                 % (ns, "" if tier == "quick" else "; attribute triples", len(K_QUICK if tier == "quick" else K_QUICK + K_MORE),
                    len(colour_styles(tier)), "" if tier == "quick" else ", 256 three-step histories",
                    2 if tier == "quick" else 3, "" if tier == "quick" else " (third position: reduced menu of 28)",
                    "pairs" if tier == "quick" else "pairs and triples",
-                   "" if tier == "quick" else " plus pairs of derivation paths of length <=2", 4 if tier == "quick" else 5),
+                   "" if tier == "quick" else " plus pairs of derivation paths of length <=2", 4 if tier == "quick" else 5,
+                   ", ".join(TH_ORDER), "1" if tier == "quick" else "1 (all) / 2 (Segment harnesses)",
+                   res.counters.get("schedules", 0)),
         "assumptions": [
             "Color.downgrade is the documented down-conversion (decided by C18); Color.parse of the 30 fixed colour specs is trusted",
             "'no control codes when not a terminal' is read as: no C0/CSI/OSC token other than SGR and OSC 8 reaches the file "
@@ -1311,11 +1340,17 @@ def describe(tier, seed, res):
             "segments, which a terminal must still receive",
             "the style of a newline character is not judged (it shows nothing); hyperlink ids are ignored",
             "all consoles 80 columns wide; texts are <=3 cells so nothing is cropped or wrapped",
+            "part TH: lines of rich.text / rich.console (style granularity) are not scheduling points (partial-order "
+            "reduction: the two consoles are separate objects; shared state is looked for in rich.style, rich.color, "
+            "rich.segment and, at console granularity, rich.console); 2 threads, preemption bound as stated",
             "part F: the target of a console without file= is whatever sys.stdout / sys.stderr is at the time of the write "
             "(documented behaviour of Console.file); the colour system is given explicitly, 'auto' detection is not explored",
         ],
         "coverage": {"styles": ns, "transitions": res.counters.get("cases_SH", 0) + res.counters.get("cases_SH2", 0)
-                     + res.counters.get("cases_QH", 0) + res.counters.get("cases_D", 0) + res.counters.get("cases_F", 0)},
+                     + res.counters.get("cases_QH", 0) + res.counters.get("cases_D", 0) + res.counters.get("cases_F", 0),
+                     "schedules": res.counters.get("schedules", 0),
+                     "thread_harnesses_complete": sorted(k.split(":", 1)[1] for k in res.counters
+                                                         if k.startswith("threads_complete:"))},
     }
 
 
